@@ -102,63 +102,181 @@ fn threads() -> usize {
         .max(1)
 }
 
-struct RunRecord {
-    index: u64,
-    result: Result<CaseResult, String>,
-    tapes: [Vec<u32>; 5],
+/// Streaming aggregate of a batch: constant memory per run (violating runs keep their tapes).
+#[derive(Default)]
+pub struct Agg {
+    pub runs: u64,
+    pub harness_errors: Vec<(u64, String)>,
+    pub discarded: BTreeMap<String, u64>,
+    pub evaluated: u64,
+    pub nontrivial: Vec<u64>,
+    pub fires: Fires,
+    pub probes: BTreeMap<String, u64>,
+    pub features: BTreeMap<&'static str, u64>,
+    pub events: u64,
+    pub execs: u64,
+    pub inconclusive: BTreeMap<String, u64>,
+    pub samples: Vec<(u64, bool, serde_json::Value)>,
+    pub with_rows: u64,
+    pub undefined: u64,
+    pub nonforest: u64,
+    pub violations: Vec<(u64, Violation, [Vec<u32>; 5])>,
+    pub lines: Vec<(u64, String)>,
 }
 
-pub fn run_batch(prop: &str, seed: u64, runs: u64, wall_cap_s: f64) -> (Vec<RunRecord>, bool) {
+impl Agg {
+    fn add_run(&mut self, prop: &str, index: u64, result: Result<CaseResult, String>, tapes: &Tapes, keep_lines: bool) {
+        self.runs += 1;
+        match result {
+            Err(m) => {
+                if keep_lines {
+                    self.lines.push((index, format!("{index} HARNESS {m}")));
+                }
+                self.harness_errors.push((index, m));
+            }
+            Ok(r) => {
+                let st = &r.stats;
+                if keep_lines {
+                    self.lines.push((
+                        index,
+                        format!(
+                            "{} {:016x} v={} d={:?} ex={} ev={}",
+                            index,
+                            st.case_digest,
+                            r.violations.iter().map(|v| v.class.clone()).collect::<Vec<_>>().join(","),
+                            st.discarded,
+                            st.execs,
+                            // C20: the amount of work depends on SchemaAdapter's hash order
+                            if prop == "C20" { 0 } else { st.events }
+                        ),
+                    ));
+                }
+                if let Some(d) = &st.discarded {
+                    let key = d.split(':').next().unwrap_or(d).to_string();
+                    *self.discarded.entry(key).or_default() += 1;
+                    return;
+                }
+                self.evaluated += 1;
+                if st.nontrivial {
+                    self.nontrivial.push(st.case_digest);
+                }
+                self.fires.add(&st.fires);
+                for p in &st.probes {
+                    *self.probes.entry(p.clone()).or_default() += 1;
+                }
+                for f in &st.features {
+                    *self.features.entry(f).or_default() += 1;
+                }
+                self.events += st.events;
+                self.execs += st.execs as u64;
+                for i in &st.inconclusive {
+                    let key = i.split('(').next().unwrap_or(i).to_string();
+                    *self.inconclusive.entry(key).or_default() += 1;
+                }
+                if st.rows > 0 {
+                    self.with_rows += 1;
+                }
+                if st.model_undefined {
+                    self.undefined += 1;
+                }
+                if st.model_nonforest {
+                    self.nonforest += 1;
+                }
+                if let Some(sv) = &st.sample {
+                    // keep the three lowest-index non-trivial samples (and one trivial fallback)
+                    let nt = st.nontrivial;
+                    let have_nt = self.samples.iter().filter(|x| x.1).count();
+                    if (nt && have_nt < 3) || (!nt && self.samples.is_empty()) {
+                        self.samples.push((index, nt, sv.clone()));
+                    }
+                }
+                if !r.violations.is_empty() {
+                    let rec = tapes.recorded();
+                    for v in r.violations {
+                        self.violations.push((index, v, rec.clone()));
+                    }
+                }
+            }
+        }
+    }
+
+    fn merge(&mut self, o: Agg) {
+        self.runs += o.runs;
+        self.harness_errors.extend(o.harness_errors);
+        for (k, v) in o.discarded {
+            *self.discarded.entry(k).or_default() += v;
+        }
+        self.evaluated += o.evaluated;
+        self.nontrivial.extend(o.nontrivial);
+        self.fires.add(&o.fires);
+        for (k, v) in o.probes {
+            *self.probes.entry(k).or_default() += v;
+        }
+        for (k, v) in o.features {
+            *self.features.entry(k).or_default() += v;
+        }
+        self.events += o.events;
+        self.execs += o.execs;
+        for (k, v) in o.inconclusive {
+            *self.inconclusive.entry(k).or_default() += v;
+        }
+        self.samples.extend(o.samples);
+        self.with_rows += o.with_rows;
+        self.undefined += o.undefined;
+        self.nonforest += o.nonforest;
+        self.violations.extend(o.violations);
+        self.lines.extend(o.lines);
+    }
+}
+
+/// Runs are handed out in blocks of consecutive indices; when the wall cap is hit no new block is
+/// started, so what was explored is always the contiguous prefix [0, runs) for some `runs`: a
+/// deterministic function of (seed, number of runs completed), for any worker count.
+pub fn run_batch(prop: &str, seed: u64, runs: u64, wall_cap_s: f64, keep_lines: bool) -> (Agg, bool) {
     let n_threads = threads();
+    const BLOCK: u64 = 500;
     let next = AtomicUsize::new(0);
-    let out: Mutex<Vec<RunRecord>> = Mutex::new(Vec::new());
+    let out: Mutex<Vec<Agg>> = Mutex::new(Vec::new());
     let start = Instant::now();
     let truncated = AtomicBool::new(false);
     std::thread::scope(|s| {
         for _ in 0..n_threads {
             s.spawn(|| {
-                // big stacks are not needed; recursion depth is bounded by query depth
+                let mut agg = Agg::default();
                 loop {
-                    let i = next.fetch_add(1, Ordering::Relaxed) as u64;
-                    if i >= runs {
-                        break;
-                    }
                     if start.elapsed().as_secs_f64() > wall_cap_s {
                         truncated.store(true, Ordering::Relaxed);
                         break;
                     }
-                    let mut tapes = Tapes::generating(seed, i);
-                    let result = match run_case(prop, &mut tapes) {
-                        Ok(r) => Ok(r),
-                        Err(HarnessError(m)) => Err(m),
-                    };
-                    let keep_tapes = match &result {
-                        Ok(r) => !r.violations.is_empty(),
-                        Err(_) => true,
-                    };
-                    let rec = RunRecord {
-                        index: i,
-                        result,
-                        tapes: if keep_tapes { tapes.recorded() } else { Default::default() },
-                    };
-                    out.lock().unwrap().push(rec);
+                    let b = next.fetch_add(1, Ordering::Relaxed) as u64;
+                    let from = b * BLOCK;
+                    if from >= runs {
+                        break;
+                    }
+                    for i in from..(from + BLOCK).min(runs) {
+                        let mut tapes = Tapes::generating(seed, i);
+                        let result = match run_case(prop, &mut tapes) {
+                            Ok(r) => Ok(r),
+                            Err(HarnessError(m)) => Err(m),
+                        };
+                        agg.add_run(prop, i, result, &tapes, keep_lines);
+                    }
                 }
+                out.lock().unwrap().push(agg);
             });
         }
     });
-    let mut v = out.into_inner().unwrap();
-    v.sort_by_key(|r| r.index);
-    // When the wall cap truncated the batch, keep only the contiguous prefix of run indices so
-    // that what is reported is a deterministic function of (seed, number of runs completed).
-    let mut keep = 0;
-    for (k, r) in v.iter().enumerate() {
-        if r.index != k as u64 {
-            break;
-        }
-        keep = k + 1;
+    let mut total = Agg::default();
+    for a in out.into_inner().unwrap() {
+        total.merge(a);
     }
-    v.truncate(keep);
-    (v, truncated.load(Ordering::Relaxed))
+    total.nontrivial.sort_unstable();
+    total.nontrivial.dedup();
+    total.samples.sort_by_key(|x| x.0);
+    total.violations.sort_by_key(|x| x.0);
+    total.harness_errors.sort_by_key(|x| x.0);
+    total.lines.sort_by_key(|x| x.0);
+    (total, truncated.load(Ordering::Relaxed))
 }
 
 fn replay_case(prop: &str, tapes: &[Vec<u32>; 5]) -> Result<CaseResult, HarnessError> {
@@ -373,79 +491,45 @@ pub fn check(prop: &str, tier: &str, runs_override: Option<u64>) -> i32 {
     println!("VERIF_SEED={seed} property={prop} tier={tier} runs={runs} threads={}", threads());
     let known = load_known();
     let t0 = Instant::now();
-    let (records, truncated) = run_batch(prop, seed, runs, cfg.wall_cap_s);
+    let (agg, truncated) = run_batch(prop, seed, runs, cfg.wall_cap_s, false);
     let batch_s = t0.elapsed().as_secs_f64();
-
-    let mut harness_errors = vec![];
-    let mut discarded: BTreeMap<String, u64> = BTreeMap::new();
-    let mut evaluated = 0u64;
-    let mut nontrivial: BTreeSet<u64> = BTreeSet::new();
-    let mut fires = Fires::default();
-    let mut probes: BTreeMap<String, u64> = BTreeMap::new();
-    let mut features: BTreeMap<&'static str, u64> = BTreeMap::new();
-    let mut events = 0u64;
-    let mut execs = 0u64;
-    let mut inconclusive: BTreeMap<String, u64> = BTreeMap::new();
-    let mut samples = vec![];
-    let mut with_rows = 0u64;
-    let mut undefined = 0u64;
-    let mut nonforest = 0u64;
+    let Agg {
+        runs: total_runs,
+        harness_errors,
+        discarded,
+        evaluated,
+        nontrivial,
+        fires,
+        probes,
+        features,
+        events,
+        execs,
+        inconclusive,
+        samples: sample_records,
+        with_rows,
+        undefined,
+        nonforest,
+        violations: all_violations,
+        lines: _,
+    } = agg;
+    let mut samples: Vec<serde_json::Value> = sample_records
+        .iter()
+        .filter(|x| x.1)
+        .take(3)
+        .map(|(i, _, s)| serde_json::json!({"run": i, "case": s}))
+        .collect();
+    if samples.is_empty() {
+        samples = sample_records.iter().take(1).map(|(i, _, s)| serde_json::json!({"run": i, "case": s})).collect();
+    }
     let mut unknown: Vec<(u64, Violation, [Vec<u32>; 5])> = vec![];
     let mut known_hits: BTreeMap<String, (u64, String)> = BTreeMap::new();
-
-    for rec in &records {
-        match &rec.result {
-            Err(m) => harness_errors.push((rec.index, m.clone())),
-            Ok(r) => {
-                let st = &r.stats;
-                if let Some(d) = &st.discarded {
-                    let key = d.split(':').next().unwrap_or(d).to_string();
-                    *discarded.entry(key).or_default() += 1;
-                    continue;
-                }
-                evaluated += 1;
-                if st.nontrivial {
-                    nontrivial.insert(st.case_digest);
-                }
-                fires.add(&st.fires);
-                for p in &st.probes {
-                    *probes.entry(p.clone()).or_default() += 1;
-                }
-                for f in &st.features {
-                    *features.entry(f).or_default() += 1;
-                }
-                events += st.events;
-                execs += st.execs as u64;
-                for i in &st.inconclusive {
-                    let key = i.split('(').next().unwrap_or(i).to_string();
-                    *inconclusive.entry(key).or_default() += 1;
-                }
-                if st.rows > 0 {
-                    with_rows += 1;
-                }
-                if st.model_undefined {
-                    undefined += 1;
-                }
-                if st.model_nonforest {
-                    nonforest += 1;
-                }
-                if samples.len() < 3 && st.nontrivial {
-                    if let Some(s) = &st.sample {
-                        samples.push(serde_json::json!({"run": rec.index, "case": s}));
-                    }
-                }
-                for v in &r.violations {
-                    match match_known(&known, prop, &rec.tapes, v) {
-                        Some(k) => {
-                            let e = known_hits
-                                .entry(k.pattern.clone())
-                                .or_insert((0, k.what.clone()));
-                            e.0 += 1;
-                        }
-                        None => unknown.push((rec.index, v.clone(), rec.tapes.clone())),
-                    }
-                }
+    for (index, v, tapes) in all_violations {
+        match match_known(&known, prop, &tapes, &v) {
+            Some(k) => {
+                let e = known_hits.entry(k.pattern.clone()).or_insert((0, k.what.clone()));
+                e.0 += 1;
             }
+            None => unknown.push((index, v, tapes)),
         }
     }
 
@@ -455,18 +539,6 @@ pub fn check(prop: &str, tier: &str, runs_override: Option<u64>) -> i32 {
         }
         return 2;
     }
-    if samples.is_empty() {
-        // fall back to any evaluated case
-        for rec in &records {
-            if let Ok(r) = &rec.result {
-                if let Some(s) = &r.stats.sample {
-                    samples.push(serde_json::json!({"run": rec.index, "case": s}));
-                    break;
-                }
-            }
-        }
-    }
-
     for (pat, (n, what)) in &known_hits {
         println!("KNOWN-FINDING: property={prop} {what} [match={pat}; hit in {n} runs]");
     }
@@ -515,7 +587,6 @@ pub fn check(prop: &str, tier: &str, runs_override: Option<u64>) -> i32 {
     }
 
     let wall_s = t0.elapsed().as_secs_f64();
-    let total_runs = records.len() as u64;
     let evidence = serde_json::json!({
         "property_id": prop,
         "tier": if tier == "thorough" { "thorough" } else { "quick" },
@@ -577,7 +648,17 @@ pub fn replay(path: &str) -> i32 {
         }
     };
     let known = load_known();
-    match replay_case(&prop, &tapes) {
+    // C20 drives the real SchemaAdapter, whose VertexType order is std hash order (fresh keys for
+    // every HashMap): a failure that depends on that order is retried under fresh orders.
+    let attempts = if prop == "C20" { 40 } else { 1 };
+    let mut last = replay_case(&prop, &tapes);
+    for _ in 1..attempts {
+        match &last {
+            Ok(r) if !r.violations.iter().any(|v| v.class == class) => last = replay_case(&prop, &tapes),
+            _ => break,
+        }
+    }
+    match last {
         Err(HarnessError(m)) => {
             eprintln!("HARNESS ERROR: {m}");
             2
@@ -609,6 +690,11 @@ pub fn replay(path: &str) -> i32 {
 }
 
 fn show(prop: &str, seed: u64, run: u64) -> i32 {
+    if prop == "C20" {
+        let mut tapes = Tapes::generating(seed, run);
+        crate::introspect::debug_show(&mut tapes);
+        return 0;
+    }
     let mut tapes = Tapes::generating(seed, run);
     match crate::runner::build_workload(&mut tapes, prop == "C22") {
         Ok(w) => {
@@ -655,6 +741,22 @@ pub fn main(args: &[String]) -> i32 {
             check(&prop, &tier, runs)
         }
         Some("replay") => replay(args.get(1).map(|s| s.as_str()).unwrap_or("")),
+        Some("digest") => {
+            // Determinism proof support: one line per run with the digest of everything observed
+            // (schema text, query text, complete adapter event logs of all executions).
+            let prop = args.get(1).cloned().unwrap_or_default();
+            let runs: u64 = args.get(2).and_then(|s| s.parse().ok()).unwrap_or(1000);
+            let (agg, _) = run_batch(&prop, seed_from_env(), runs, 1e9, true);
+            let mut all = crate::tape::Digest::new();
+            for (_, line) in &agg.lines {
+                all.add_str(line);
+                if std::env::var("TFSIM_DIGEST_LINES").is_ok() {
+                    println!("{line}");
+                }
+            }
+            println!("DIGEST prop={prop} runs={} {:016x}", agg.runs, all.0);
+            0
+        }
         Some("hashsim") => {
             let tier = args.get(1).cloned().unwrap_or_else(|| "quick".into());
             crate::hashsim::check(&tier, seed_from_env())
